@@ -262,18 +262,54 @@ def plan_paths(ctx, g, budget, ext):
     return paths, total, total - len(uncovered)
 
 
-def phase_life(ctx):
+class Bg:
+    """A phase (or a TLC run) in a background thread; an exception is re-raised at join()."""
+
+    def __init__(self, fn, *args):
+        import threading
+        self.out, self.err = None, None
+
+        def body():
+            try:
+                self.out = fn(*args)
+            except BaseException as e:  # noqa: BLE001
+                self.err = e
+        self.th = threading.Thread(target=body, daemon=True)
+        self.th.start()
+
+    def join(self):
+        self.th.join()
+        if self.err is not None:
+            raise self.err
+        return self.out
+
+
+NEG_CONTROLS = ("ObjFile_stale.cfg", "ObjFile_chunked.cfg", "ObjFile_sha1cache.cfg")
+
+
+def objfile_runs(ctx):
+    """All TLC runs of ObjFile side by side (they are independent of everything else): the three state
+    graphs and the negative controls.  Returns {name: TlcResult}, dot files in the returned directory."""
     d = ctx.tmpdir("of")
-    plans = {}
     # the graph of the Blob.chunked defect model (no invariants: only its shape is used, for the
-    # state-by-state comparison while the defect is present in the code)
+    # state-by-state comparison while that defect is present in the code)
     keeps = os.path.join(d, "blob_keeps_sha.cfg")
     tlc.write_cfg(keeps, spec="Spec", constants={"NF": 1, "Vals": "{0, 1, 2}", "IsBlob": "TRUE", "SetterMarksDirty": "TRUE",
                                                 "ChunkedResetsSha": "FALSE", "ExplicitSha1Recomputes": "TRUE"})
+    graphs = {"generic": "ObjFile_mc.cfg", "blob": "ObjFile_blob.cfg", "blob_keeps_sha": keeps}
+    bgs = {n: Bg(lambda n=n, c=c: tlc.run("ObjFile.tla", c, workers=ctx.pick(2, 4), dump_dot=os.path.join(d, n + ".dot"), timeout=600,
+                                        coverage=not ctx.quick)) for n, c in graphs.items()}
+    bgs.update({c: Bg(lambda c=c: tlc.run("ObjFile.tla", c, workers=2, timeout=300)) for c in NEG_CONTROLS})
+    return d, keeps, {n: b.join() for n, b in bgs.items()}
+
+
+def phase_life(ctx, objfile):
+    d, keeps, runs = objfile.join()
+    plans = {}
     for name, cfg, budget in (("generic", "ObjFile_mc.cfg", ctx.pick(450, 100000)), ("blob", "ObjFile_blob.cfg", ctx.pick(200, 100000)),
                               ("blob_keeps_sha", keeps, ctx.pick(200, 100000))):
         dot = os.path.join(d, name + ".dot")
-        res = tlc.run("ObjFile.tla", cfg, workers=4, dump_dot=dot, timeout=600, coverage=not ctx.quick)
+        res = runs[name]
         ctx.add_tlc(f"ObjFile[{os.path.basename(cfg)}]" + (" invariants TypeOK IdIsHash SerCurrent CacheCoherent" if cfg != keeps else " (shape of the defect model, no invariants)"), res)
         g = tlc.load_dot(dot)
         paths, total, covered = plan_paths(ctx, g, budget, ext=ctx.pick(6, 4))
@@ -282,9 +318,10 @@ def phase_life(ctx):
         ctx.cov.setdefault("life", {})[name] = {"states": len(g.nodes), "transitions": total, "behaviours": len(paths),
                                                 "transitions_covered": covered}
         ctx.log(f"ObjFile {name}: {len(g.nodes)} states, {total} transitions, {len(paths)} behaviours cover {covered}")
-    # negative controls: the invariants bite on the two defect models
-    for cfg in ("ObjFile_stale.cfg", "ObjFile_chunked.cfg", "ObjFile_sha1cache.cfg"):
-        r = tlc.run("ObjFile.tla", cfg, workers=2, timeout=300)
+    # negative controls: the invariants bite on the defect models (forgetful setter, Blob.chunked keeps the
+    # sha, an explicit SHA-1 request answered from the cache)
+    for cfg in NEG_CONTROLS:
+        r = runs[cfg]
         ctx.add_tlc(f"{cfg} (negative control: defect model must violate IdIsHash/SerCurrent)", r, require_ok=False)
         if not ({"IdIsHash", "SerCurrent"} & set(r.violated)):
             raise MachineryError(f"negative control {cfg} found no violation\n{r.output[-1500:]}")
@@ -720,11 +757,22 @@ def run(ctx):
     shutil.rmtree(ctx.replay_dir, ignore_errors=True)      # replay files of earlier runs are obsolete
     os.makedirs(ctx.replay_dir, exist_ok=True)
     rustext.build()
+    # ctx is shared by the phases that run side by side
+    import threading
+    lock = threading.RLock()
+    for name in ("violation", "count", "validated", "add_tlc", "sample", "drift_event", "nontrivial", "log"):
+        def locked(*a, _f=getattr(ctx, name), **kw):
+            with lock:
+                return _f(*a, **kw)
+        setattr(ctx, name, locked)
+    objfile = Bg(objfile_runs, ctx)          # ObjFile TLC runs: independent of the grammar
+    fuzz = Bg(phase_fuzz, ctx)               # random objects judged by TLC: independent too
     phase_grammar(ctx)
-    traces = phase_life(ctx)
+    gitp = Bg(phase_git, ctx)                # needs the enumerated cases only
+    traces = phase_life(ctx, objfile)
     phase_life_traces(ctx, traces)
-    phase_fuzz(ctx)
-    phase_git(ctx)
+    fuzz.join()
+    gitp.join()
     finish_edit_graph(ctx)
     ctx.cov["rule"] = (
         "evaluations = operations executed on real dulwich objects (builds, parses, one-field edits, life-cycle steps, random "
